@@ -38,6 +38,7 @@ import (
 	"go.opentelemetry.io/collector/exporter/exporterhelper/internal/request"
 	"go.opentelemetry.io/collector/exporter/exporterhelper/internal/requesttest"
 	"go.opentelemetry.io/collector/exporter/exporterhelper/internal/storagetest"
+	"go.opentelemetry.io/collector/extension/xextension/storage"
 	"go.opentelemetry.io/collector/pipeline"
 )
 
@@ -62,6 +63,7 @@ type vECfg struct {
 	retry      bool
 	block      bool // sending_queue.block_on_overflow
 	badMarshal int  // item count of the requests the Encoding refuses to marshal (-1: none)
+	siFails    bool // the storage refuses the best-effort queue-size snapshot writes (not an input of the model)
 	telMode    int // tracer provider mode (vC19NewTel); tracing = spans record
 }
 
@@ -94,6 +96,30 @@ func (c vECfg) term() string {
 		it[i] = vZ(x)
 	}
 	return vList(it)
+}
+
+// a storage extension whose clients refuse to write the queue-size snapshot key "si" (a best-effort write the
+// persistent queue makes every tenth Put / Done and at Shutdown; its failure must only be logged)
+type vFailSI struct{ storage.Extension }
+
+func (e vFailSI) GetClient(ctx context.Context, k component.Kind, id component.ID, name string) (storage.Client, error) {
+	c, err := e.Extension.GetClient(ctx, k, id, name)
+	return vFailSIClient{c}, err
+}
+
+type vFailSIClient struct{ storage.Client }
+
+func (c vFailSIClient) Set(ctx context.Context, key string, v []byte) error {
+	return c.Batch(ctx, storage.SetOperation(key, v))
+}
+
+func (c vFailSIClient) Batch(ctx context.Context, ops ...*storage.Operation) error {
+	for _, op := range ops {
+		if op.Type == storage.Set && op.Key == "si" {
+			return errors.New("storage: cannot write the queue size snapshot")
+		}
+	}
+	return c.Client.Batch(ctx, ops...)
 }
 
 type vC19Enc struct{ bad int }
@@ -286,7 +312,10 @@ func vC19RunExp(_ *testing.T, cfg vECfg, outs []vEOut, ops []vEOp) vExpObs {
 	if err != nil {
 		panic(fmt.Sprintf("NewBaseExporter(%+v): %v", cfg, err))
 	}
-	ext := storagetest.NewMockStorageExtension(nil)
+	var ext storage.Extension = storagetest.NewMockStorageExtension(nil)
+	if cfg.siFails {
+		ext = vFailSI{ext}
+	}
 	host := hosttest.NewHost(map[component.ID]component.Component{storageID: ext})
 	if err = be.Start(context.Background(), host); err != nil {
 		panic(err)
@@ -662,11 +691,12 @@ func vC19GenExp(rng *vRand) (cfg vECfg, outs []vEOut, ops []vEOp, class string) 
 		class = "persistent"
 		cfg.queue, cfg.storage = true, true
 		cfg.capacity = 1 + rng.Intn(5)
-		if rng.Intn(4) == 0 {
+		if rng.Intn(2) == 0 {
 			// items sizer on a persistent queue: rejected by config.Validate but accepted by the Go API;
 			// the only way a request can be larger than the capacity there
 			cfg.itemsSizer = true
-			cfg.capacity = 8 + rng.Intn(30)
+			cfg.capacity = 20 + rng.Intn(60)
+			cfg.siFails = rng.Intn(3) != 0 // only a non-requests sizer writes snapshots
 		}
 		allowBurst = true
 		allowHang = rng.Intn(3) == 0
@@ -886,6 +916,11 @@ func vC19ExpOracle(out *vOut, cfg vECfg, term string, o vExpObs) {
 		if len(o.problem) > 5 && o.problem[:5] == "gauge" {
 			kind = "exporter-gauge-inexact"
 		}
+		if len(o.problem) > 22 && o.problem[:22] == "send: unexpected error" {
+			// a Send returned an error that is no refusal by the queue (e.g. the error of a best-effort storage write
+			// made after the request was stored): the caller is told "failed" although the request will be exported
+			kind = "exporter-send-error-not-a-refusal"
+		}
 		out.Oracle(kind, term, o.problem+" | "+desc)
 		return
 	}
@@ -997,6 +1032,12 @@ func TestVerifC19Exp(t *testing.T) {
 		}
 		if j.cfg.block {
 			out.Stat("cases_block_on_overflow", 1)
+		}
+		if j.cfg.siFails {
+			out.Stat("cases_snapshot_write_fails", 1)
+			if len(o.sends) >= 5 {
+				out.Stat("cases_snapshot_write_fails_with_5_sends", 1)
+			}
 		}
 		if o.stored > 0 {
 			out.Stat("cases_with_stored_left", 1)
